@@ -198,7 +198,10 @@ def work(item):
     res = Result(f"rt|{p['label']}")
     from orquestra.quantum.circuits import _serde as SD
 
-    res.fn(SD._circuit_to_dict, SD._basic_gate_to_dict, SD._controlled_gate_to_dict, SD._dagger_gate_to_dict, SD._power_gate_to_dict, SD._exponential_gate_to_dict, SD._custom_gate_def_to_dict, SD.circuit_from_dict, SD._gate_from_dict, SD._builtin_gate_from_dict, SD._special_gate_from_dict, SD._custom_gate_instance_from_dict, SD.custom_gate_def_from_dict, SD.deserialize_expr, SD._make_symbols_map)
+    try:  # evidence only: a renamed private helper must not break the check
+        res.fn(SD._circuit_to_dict, SD._basic_gate_to_dict, SD._controlled_gate_to_dict, SD._dagger_gate_to_dict, SD._power_gate_to_dict, SD._exponential_gate_to_dict, SD._custom_gate_def_to_dict, SD.circuit_from_dict, SD._gate_from_dict, SD._builtin_gate_from_dict, SD._special_gate_from_dict, SD._custom_gate_instance_from_dict, SD.custom_gate_def_from_dict, SD.deserialize_expr, SD._make_symbols_map)
+    except AttributeError:
+        pass
     try:
         _work(res, p)
     except Refuse as e:
